@@ -121,6 +121,7 @@ type chanV struct {
 	buf    []value
 	cap    int
 	closed bool
+	timer  bool // created by time.After: becomes ready only when nothing else is (time passes)
 }
 
 // ---------- insertion-ordered map
